@@ -362,10 +362,18 @@ struct Reader
         if (!probe(bytes, ext, w, h)) return;
         if (s.sub_w > 0) w = s.sub_w; else if (s.sub_x > 0) w -= s.sub_x;
         if (s.sub_h > 0) h = s.sub_h; else if (s.sub_y > 0) h -= s.sub_y;
-        if (w <= 0 || h <= 0 || w > 4096 || h > 4096 || w * h > (1 << 20)) return;
+        if (w <= 0 || h <= 0 || w > 4096 || h > 4096 || w * h > (1 << 16)) return; // larger declared sizes: not pre-filled, pixels not hashed
         img.recreate(w, h);
         fill_const(gil::view(img), 0x5A);
         sized = true;
+    }
+
+    // Pixels are hashed only if the destination was pre-filled (or is small): otherwise pixels that a reader legitimately
+    // leaves untouched would carry the build's poison into the digest.
+    template <class Img> static uint64_t pix_if(bool sized, Img const& img)
+    {
+        if (sized || img.width() * img.height() <= 4096) return view_digest(gil::const_view(img));
+        return 0x5151515151515151ull;
     }
 
     template <class Img> static Outcome read_image(ReadSpec const& s, Bytes& bytes, char const* ext)
@@ -375,7 +383,7 @@ struct Reader
             Img img; bool sized;
             presize(img, s, bytes, ext, sized);
             with_read_device<Tag>(s.dev, bytes, ext, [&](auto& dev) { gil::read_image(dev, img, settings(s)); });
-            o.w = (long)img.width(); o.h = (long)img.height(); o.pix = view_digest(gil::const_view(img));
+            o.w = (long)img.width(); o.h = (long)img.height(); o.pix = pix_if(sized, img);
         });
         return o;
     }
@@ -398,7 +406,7 @@ struct Reader
             Img img; bool sized;
             presize(img, s, bytes, ext, sized);
             with_read_device<Tag>(s.dev, bytes, ext, [&](auto& dev) { gil::read_and_convert_image(dev, img, settings(s)); });
-            o.w = (long)img.width(); o.h = (long)img.height(); o.pix = view_digest(gil::const_view(img));
+            o.w = (long)img.width(); o.h = (long)img.height(); o.pix = pix_if(sized, img);
         });
         return o;
     }
